@@ -11,7 +11,13 @@ codec's own bookkeeping):
            (/payloadToValue at the leaves) under a stub cache, must present exactly the elements the
            decoder found for that fiber (full scan and scans from a base coordinate);
   lookup   coordToHandle on every encoded C fiber == bisect_left over its stored coordinates (None past the end);
-  size     getSize() of every encoded fiber == number of words of its layout (word-count formula below).
+  size     getSize() of every encoded fiber == number of words of its layout (word-count formula below);
+  concurrent  the elements a fiber presents do not depend on what other slices are open: the fibers of a rank
+           co-iterated (one slice open on each, pulled in turn), the whole encoded tensor walked top-down (a child
+           is scanned while the scan of its parent is still open), and the fibers of several encoded tensors
+           co-iterated two-finger style must each present exactly the elements of their layout;
+  reuse    one Codec object encoding a sequence of tensors (same depth; rank ids the same, permuted or different):
+           every encoding is decoded and scanned exactly as above under that tensor's own rank ids.
 """
 import bisect
 import contextlib
@@ -32,17 +38,30 @@ SPEC = {
              "/ value), every depth-2 tree over a 2x2 grid with rows absent / empty / 3-state leaves, a family of depth-3 "
              "trees over a 2x2x2 grid, each under all 3^depth descriptors, without and with an imposed larger shape; "
              "random: depth 1-3, extents 1-6 (one rank occasionally 31..70 wide so that bit masks span several words), "
-             "density 0..1, explicit zeros and empty sub-fibers, declared / estimated shapes, the all-zero tensor.  "
+             "density 0..1, explicit zeros and empty sub-fibers, declared / estimated shapes, the all-zero tensor; rank "
+             "ids M,N,K or (random part) distinct names drawn from a pool of one- and two-character ids.  Codec reuse "
+             "(kind 'seq'): ONE Codec(desc) encodes 2-4 tensors of the same depth in a row, each with a fresh output "
+             "dict from get_output_dict(its rank ids); the rank ids of consecutive tensors are identical, a permutation "
+             "(a tensor followed by its rank-permuted transpose) or disjoint; systematic: fixed depth-1/2/3 sequences "
+             "under all descriptors, random: sequences of random tensors.  Every encoding (fresh or reused codec) gets "
+             "the sequential per-fiber checks and then the concurrent schedules: round-robin co-iteration of all "
+             "fibers of each rank, a nested top-down walk of the whole encoded tensor, and (seq) a two-finger "
+             "co-iteration of the top fibers / first leaf fibers of the encoded tensors of the sequence.  "
              "Non-trivial = the tensor holds at least one non-zero leaf and the encoding was produced; distinct = "
-             "distinct (tree, shape, descriptor, imposed shape)."),
+             "distinct (tree, shape, rank ids, descriptor, imposed shape, rank ids the codec encoded before)."),
     "shards": {"quick": 16, "thorough": 16},
     "min_counts": {"quick": {"evaluations": 4000, "oracle_evals": 60000, "encodings": 4000, "decodes_ok": 3000,
                              "fibers_scanned": 20000, "lookup_queries": 20000, "sizes_checked": 20000,
                              "imposed_shape_cases": 1000, "empty_fiber_cases": 500, "allzero_cases": 50,
-                             "multiword_mask_fibers": 20},
+                             "multiword_mask_fibers": 20,
+                             "concurrent_scans": 20000, "coiterations": 2000, "nested_walks": 3000,
+                             "reused_codec_encodings": 500, "rank_id_changes": 300, "cross_tensor_coiterations": 300},
                    "thorough": {"evaluations": 60000, "oracle_evals": 1000000, "encodings": 60000,
                                 "fibers_scanned": 300000, "lookup_queries": 300000, "sizes_checked": 300000,
-                                "multiword_mask_fibers": 300}},
+                                "multiword_mask_fibers": 300,
+                                "concurrent_scans": 300000, "coiterations": 30000, "nested_walks": 50000,
+                                "reused_codec_encodings": 5000, "rank_id_changes": 3000,
+                                "cross_tensor_coiterations": 3000}},
     "budget_s": {"quick": 150, "thorough": 900},
     "timeout_s": {"quick": 600, "thorough": 1800},
     "assumptions": [
@@ -53,6 +72,14 @@ SPEC = {
         "an imposed shape is >= the tensor's own shape in every rank (the codec asserts this); without an imposed shape the "
         "fiber shape of a rank is the tensor's shape of that rank as reported before encoding",
         "a fresh tensor is built for every encoding (U encoding fetches default sub-fibers from the operand; purity is C10's)",
+        "the Codec object is fresh, or (kind 'seq') the same object is reused for several tensors of the descriptor's depth, "
+        "each call sequence starting with its own get_output_dict(rank ids of that tensor); a codec holds a descriptor, not a "
+        "tensor, so every encoding it produces is in scope",
+        "rank ids are non-empty strings, distinct within a tensor also after lower-casing (the output dict keys are "
+        "coords_<id.lower()> / payloads_<id.lower()>)",
+        "every encoded fiber owns its slice position: any interleaving of setupSlice/nextInSlice/handleTo* calls on different "
+        "fiber objects (of one encoded tensor or of several) is a legal way of 'scanning each encoded fiber'; one slice per "
+        "fiber object at a time",
         "cache hit/miss statistics and read/write counters are not part of the property; the library's prints are discarded",
         "word count of a fiber with n stored elements and shape s (reading of 'coordinates or mask words, occupancy entries, "
         "payload entries'): coordinate words U 0, C n, B ceil(s/32); occupancy entries one per slot (U: s, C/B: n) iff the "
@@ -66,6 +93,9 @@ SPEC = {
 }
 
 RANKS = ["M", "N", "K"]
+ID_POOL = ["M", "N", "K", "I", "J", "S", "P", "Q", "X", "D0", "D1", "K0", "K1", "Rank"]     # distinct also lower-cased
+NTENSORS_QUICK, NTENSORS_THOROUGH = 1200, 30000
+NSEQS_QUICK, NSEQS_THOROUGH = 160, 4000
 FMTS = "UCB"
 BITS_PER_WORD = 32
 
@@ -119,10 +149,28 @@ def generate(rng, tier, shard, nshards, mon):
                            "imposed": imposed, "sys": True}
                 idx += 1
     mon.exhaustive["small-scope trees x all descriptors x {no, +1/+2} imposed shape"] = True
-    ntensors = (1200 if tier == "quick" else 30000) // nshards + 1
+    for depth, items in _systematic_seqs():
+        for desc in _descs(depth):
+            if idx % nshards == shard:
+                yield {"kind": "seq", "depth": depth, "desc": desc, "items": items, "sys": True}
+            idx += 1
+    mon.exhaustive["fixed rank-id sequences (same / permuted / disjoint ids) on one codec x all descriptors"] = True
+    nseqs = (NSEQS_QUICK if tier == "quick" else NSEQS_THOROUGH) // nshards + 1
+    for _ in range(nseqs):
+        depth, items = _random_seq(rng)
+        descs = _descs(depth)
+        for desc in (descs if depth <= 2 else rng.sample(descs, 9)):
+            its = [dict(it) for it in items]
+            for it in its:
+                if it.pop("impose", False):
+                    it["imposed"] = _random_imposed(rng, it["shape"], desc)
+            yield {"kind": "seq", "depth": depth, "desc": desc, "items": its}
+    ntensors = (NTENSORS_QUICK if tier == "quick" else NTENSORS_THOROUGH) // nshards + 1
     for _ in range(ntensors):
         base = _random_tensor(rng)
         depth = base["depth"]
+        if rng.random() < 0.3:
+            base["rank_ids"] = rng.sample(ID_POOL, depth)
         descs = _descs(depth)
         for desc in descs:
             case = dict(base)
@@ -138,8 +186,75 @@ def generate(rng, tier, shard, nshards, mon):
             yield case
 
 
-def _random_tensor(rng):
-    depth = rng.choice([1, 2, 2, 3, 3])
+def _item(spec, shape, rank_ids, imposed=None):
+    return {"spec": spec, "shape": shape, "rank_ids": list(rank_ids), "imposed": imposed}
+
+
+def _permuted(spec, depth, perm):
+    """The same content with rank j of the result = rank perm[j] of `spec` (canonical spec)."""
+    content = gen.content_of_spec(spec, 0)
+    return gen.spec_from_content({tuple(pt[j] for j in perm): v for pt, v in content.items()}, depth)
+
+
+def _systematic_seqs():
+    """Yields (depth, items): tensors one codec encodes in a row; rank ids repeated, permuted, replaced."""
+    v1, v2 = [[0, 3], [2, 5]], [[1, 7], [2, 0], [3, -1]]
+    yield 1, [_item(v1, [3], ["K"]), _item(v2, [4], ["J"]), _item(v1, [3], ["K"])]
+    yield 1, [_item(v2, [4], ["S"]), _item(v1, [4], ["S"]), _item(v1, [3], ["D0"]), _item([], [2], ["D1"])]
+    a = gen.spec_from_content({(0, 1): 7, (0, 3): 5, (2, 0): 3, (2, 3): 4, (2, 4): 6}, 2)
+    b = gen.spec_from_content({(0, 0): 1, (0, 2): 2, (1, 2): 3}, 2)
+    at = _permuted(a, 2, (1, 0))
+    yield 2, [_item(a, [3, 5], "MK"), _item(at, [5, 3], "KM"), _item(b, [2, 3], "IJ"), _item(a, [3, 5], "MK")]
+    yield 2, [_item(b, [2, 3], "IJ"), _item(b, [2, 3], "JI"), _item(a, [3, 5], "JK")]
+    yield 2, [_item(at, [5, 3], ["D1", "D0"]), _item(a, [3, 5], ["D0", "D1"]), _item(at, None, ["D1", "D0"])]
+    yield 2, [_item(a, [3, 5], "MK"), _item(b, [2, 3], "MK"), _item(at, [6, 3], "MK", [7, 4])]
+    c = gen.spec_from_content({(0, 0, 1): 1, (0, 1, 0): 2, (2, 0, 0): 3, (2, 1, 1): 4, (2, 2, 0): 5, (2, 2, 1): 6}, 3)
+    yield 3, [_item(c, [3, 3, 2], "MNK"), _item(_permuted(c, 3, (1, 0, 2)), [3, 3, 2], "NMK")]
+    yield 3, [_item(c, [3, 3, 2], "MNK"), _item(_permuted(c, 3, (2, 0, 1)), [2, 3, 3], "KMN"),
+              _item(c, [3, 3, 2], "PQS"), _item(c, [3, 3, 2], "MNK")]
+    yield 3, [_item(_permuted(c, 3, (2, 1, 0)), [2, 3, 3], "KNM"), _item(c, [3, 3, 2], "MNK"),
+              _item(c, [3, 3, 2], "MNK")]
+
+
+def _random_seq(rng):
+    first = _random_tensor(rng)
+    depth = first["depth"]
+    ids = rng.choice([RANKS[:depth], rng.sample(ID_POOL, depth)])
+    items = []
+    cur = first
+    for k in range(rng.choice([2, 2, 3, 3, 4])):
+        if k:
+            r = rng.random()
+            if r < 0.35 and depth > 1 and gen.content_of_spec(cur["spec"], 0):
+                # the rank-permuted transpose of the previous tensor, under the permuted rank ids
+                perm = list(range(depth))
+                while perm == list(range(depth)):
+                    rng.shuffle(perm)
+                shape = cur["shape"]
+                cur = {"spec": _permuted(cur["spec"], depth, perm), "depth": depth,
+                       "shape": [shape[j] for j in perm] if shape is not None else None}
+                ids = [ids[j] for j in perm]
+            else:
+                cur = _random_tensor(rng, depth)
+                q = rng.random()
+                if q < 0.25:
+                    pass                                    # the same rank ids again
+                elif q < 0.55 and depth > 1:
+                    ids = rng.sample(ids, depth)            # the same ids in another order
+                elif q < 0.8:
+                    ids = rng.sample(ID_POOL, depth)        # other ids (may overlap)
+                else:
+                    ids = rng.sample([i for i in ID_POOL if i not in ids], depth)
+        it = _item(cur["spec"], cur["shape"], ids)
+        if rng.random() < 0.3:
+            it["impose"] = True
+        items.append(it)
+    return depth, items
+
+
+def _random_tensor(rng, depth=None):
+    if depth is None:
+        depth = rng.choice([1, 2, 2, 3, 3])
     extents = [rng.randint(1, 6) for _ in range(depth)]
     wide = None
     if depth <= 2 and rng.random() < 0.15:
@@ -343,9 +458,13 @@ def quiet():
     return contextlib.nullcontext()         # stdout is redirected once per case in run_case
 
 
+def rank_ids_of(case, depth):
+    return list(case.get("rank_ids") or RANKS[:depth])
+
+
 def build_tensor(case):
     depth = case["depth"]
-    rank_ids = RANKS[:depth]
+    rank_ids = rank_ids_of(case, depth)
     spec = case["spec"]
     shape = case.get("shape")
     if not spec:
@@ -353,9 +472,14 @@ def build_tensor(case):
     return gen.tensor_from_spec(spec, rank_ids, shape=shape)
 
 
-def encode(t, desc, imposed):
+def make_codec(desc):
     from fibertree.codec.tensor_codec import Codec
-    codec = Codec(tuple(desc), [True] * len(desc))
+    return Codec(tuple(desc), [True] * len(desc))
+
+
+def encode(t, desc, imposed, codec=None):
+    if codec is None:
+        codec = make_codec(desc)
     rank_ids = t.getRankIds()
     output = codec.get_output_dict(rank_ids)
     output_tensor = [list() for _ in range(len(desc) + 1)]
@@ -396,7 +520,47 @@ def run_case(case, mon):
 
 
 def _run_case(case, mon):
+    if case.get("kind") != "seq":
+        _run_one(case, mon, None, None)
+        return
+    # one Codec object for the whole sequence
     depth, desc = case["depth"], case["desc"]
+    try:
+        codec = make_codec(desc)
+    except BaseException as e:      # noqa
+        mon.violation(f"encode:raised:{type(e).__name__}", f"Codec({desc}) raised {type(e).__name__}: {e}")
+        return
+    before, done = [], []
+    for pos, item in enumerate(case["items"]):
+        sub = dict(item)
+        sub["depth"], sub["desc"] = depth, desc
+        ids = rank_ids_of(sub, depth)
+        if pos:
+            mon.count("reused_codec_encodings")
+            if ids != before[-1]:
+                mon.count("rank_id_changes")
+        res = _run_one(sub, mon, codec, list(before))
+        before.append(ids)
+        if res is not None:
+            done.append(res)
+    # the encoded tensors of the sequence co-iterated: their top fibers, and their first leaf fibers
+    if len(done) >= 2:
+        groups = [[(d["recs"][0][0], d["ot"][1][0], d["ot"], depth == 1) for d in done]]
+        if depth > 1:
+            groups.append([(d["recs"][-1][0], d["ot"][depth][0], d["ot"], True) for d in done if d["recs"][-1]])
+        for group in groups:
+            if len(group) >= 2:
+                mon.count("cross_tensor_coiterations")
+                _coiterate(mon, group, "across-tensors", desc, merge=True)
+
+
+def _run_one(case, mon, codec, before):
+    """One encoding and all its checks.  `codec`: the object to encode with (None = a fresh one); `before`: rank ids
+    of the tensors that object encoded earlier.  Returns {"recs", "ot"} when the encoded fibers passed every
+    sequential check (so that they can take part in further concurrent schedules), else None."""
+    depth, desc = case["depth"], case["desc"]
+    rank_ids = rank_ids_of(case, depth)
+    ctx = "" if not before else f" [codec reused: encoded rank ids {before} before, now {rank_ids}]"
     want = gen.content_of_spec(case["spec"], 0)
     try:
         with quiet():
@@ -414,15 +578,15 @@ def _run_case(case, mon):
         imposed = [max(i, o) for i, o in zip(imposed, own)]
         mon.count("imposed_shape_cases")
     shape = list(imposed) if imposed is not None else own
-    keys = [(f"coords_{r.lower()}", f"payloads_{r.lower()}") for r in RANKS[:depth]]
+    keys = [(f"coords_{r.lower()}", f"payloads_{r.lower()}") for r in rank_ids]
 
     # ---- encode (real code) -----------------------------------------------------------------
     try:
         with quiet():
-            out, ot = encode(t, desc, list(imposed) if imposed is not None else None)
+            out, ot = encode(t, desc, list(imposed) if imposed is not None else None, codec)
     except BaseException as e:      # noqa
         mon.violation(f"encode:raised:{type(e).__name__}",
-                      f"encode {desc} shape={imposed} raised {type(e).__name__}: {e}")
+                      f"encode {desc} shape={imposed} raised {type(e).__name__}: {e}{ctx}")
         return
     mon.count("encodings")
     if not want:
@@ -431,7 +595,7 @@ def _run_case(case, mon):
 
     ok_keys = set(["payloads_root"] + [k for pair in keys for k in pair])
     mon.check(set(out.keys()) == ok_keys, "encode:output-dict-keys",
-              f"{desc}: output dict has keys {sorted(out.keys())}, expected {sorted(ok_keys)}")
+              f"{desc}: output dict has keys {sorted(out.keys())}, expected {sorted(ok_keys)}{ctx}")
 
     # ---- decode by layout -------------------------------------------------------------------
     eff_shape = shape
@@ -461,21 +625,24 @@ def _run_case(case, mon):
                 pass
         if not classified:
             mon.violation(f"decode:{problem[0]}" + (":imposed-shape" if imposed is not None and imposed != own else ""),
-                          f"{desc} shape={shape}: arrays {out} do not decode to the tensor: {problem[1][:400]}")
+                          f"{desc} shape={shape}: arrays {out} do not decode to the tensor: {problem[1][:400]}{ctx}")
             recs = None
     else:
         mon.count("oracle_evals")
         mon.count("decodes_ok")
     if want:
-        mon.nontrivial({k: case.get(k) for k in ("spec", "shape", "desc", "imposed")})
+        key = {k: case.get(k) for k in ("spec", "shape", "desc", "imposed")}
+        key["rank_ids"], key["before"] = rank_ids, before
+        mon.nontrivial(key)
     if recs is None:
-        return
+        return None
+    raw0 = mon.counters["violations_raw"]
 
     # ---- the encoded fiber objects ---------------------------------------------------------------
     nfib = [len(r) for r in ot[1:]]
     if not mon.check(nfib == [len(r) for r in recs], "encode:fiber-objects-per-rank",
                      f"{desc}: output_tensor holds {nfib} fibers per rank, the arrays hold {[len(r) for r in recs]}"):
-        return
+        return None
     try:
         ok = len(ot[0]) == 1 and list(ot[0][0].getPayloads()) == [ot[1][0]]
     except BaseException:       # noqa
@@ -503,6 +670,20 @@ def _run_case(case, mon):
             _check_size(mon, fib, expected_size(rec, desc), fmt, desc, rec)
     if had_empty:
         mon.count("empty_fiber_cases")
+    if mon.counters["violations_raw"] != raw0:
+        return None         # already reported fiber by fiber; concurrent schedules only over fibers that scan correctly alone
+
+    # ---- concurrent schedules: a fiber's elements do not depend on which other slices are open -----
+    for r in range(depth):
+        group = [(rec, fib, ot, r == depth - 1) for rec, fib in zip(recs[r], ot[r + 1])]
+        if len(group) >= 2:
+            mon.count("coiterations")
+            _coiterate(mon, group, "siblings", desc, merge=False)
+    mon.count("nested_walks")
+    _nested_walk(mon, recs, ot, desc)
+    if mon.counters["violations_raw"] != raw0:
+        return None
+    return {"recs": recs, "ot": ot}
 
 
 def _diff(got, want):
@@ -559,19 +740,9 @@ def _check_scan(mon, rec, fib, index, ot, shape, desc, leaf):
                       f"{[g[0] for g in got]}, the layout holds {[e[1] for e in exp]}")
             continue
         # interior: the element's payload is the child fiber
-        try:
-            held = list(fib.getPayloads())
-        except BaseException:           # noqa
-            held = []
-        if not held and fmt == "C" and desc[r + 1] == "U":
+        okc = _children_ok(rec, fib, got, exp, ot, desc)
+        if okc is None:
             continue                    # children implicit at fixed stride; no payload entry to compare (see assumptions)
-        okc = True
-        for (c, ph, _), (_, child) in zip(got, exp):
-            try:
-                obj = held[ph]
-            except BaseException:       # noqa
-                obj = None
-            okc = okc and (obj is ot[r + 2][child])
         mon.check(okc, f"{what}:{kind}:child",
                   f"{desc} rank {r} fiber {index}: payload handles {[g[1] for g in got]} of the scan from {base} do not "
                   f"lead to the fiber's children (fibers {[e[1] for e in exp]} of the next rank)")
@@ -586,6 +757,144 @@ def _check_scan(mon, rec, fib, index, ot, shape, desc, leaf):
             mon.check(fh == [e[1] for e in exp], f"{what}:payloadToFiberHandle",
                       f"{desc} rank {r} fiber {index}: payloadToFiberHandle gives {fh}, the children are fibers "
                       f"{[e[1] for e in exp]} of the next rank")
+
+
+def _children_ok(rec, fib, got, exp, ot, desc):
+    """Do the payload handles of the presented elements lead to the fiber's children?  None = not comparable."""
+    r = rec.rank
+    try:
+        held = list(fib.getPayloads())
+    except BaseException:           # noqa
+        held = []
+    if not held and rec.fmt == "C" and desc[r + 1] == "U":
+        return None
+    okc = True
+    for (c, ph, _), (_, child) in zip(got, exp):
+        try:
+            obj = held[ph]
+        except BaseException:       # noqa
+            obj = None
+        okc = okc and (obj is ot[r + 2][child])
+    return okc
+
+
+# ------------------------------------------------------------------------------------------
+# concurrent schedules
+# ------------------------------------------------------------------------------------------
+class _Cursor:
+    """One open slice (from base 0) on one encoded fiber, pulled element by element."""
+    __slots__ = ("rec", "fib", "ot", "leaf", "cap", "got", "error", "runaway", "done")
+
+    def __init__(self, rec, fib, ot, leaf):
+        self.rec, self.fib, self.ot, self.leaf = rec, fib, ot, leaf
+        self.cap = rec.shape + len(rec.coords) + 2
+        self.got, self.error, self.runaway, self.done = [], None, False, False
+
+    def open(self):
+        try:
+            self.fib.setupSlice(0)
+        except BaseException as e:      # noqa
+            self.error, self.done = e, True
+        return self
+
+    def pull(self):
+        if self.done:
+            return None
+        fib = self.fib
+        try:
+            h = fib.nextInSlice()
+            if h is None:
+                self.done = True
+                return None
+            if len(self.got) >= self.cap:
+                self.runaway = self.done = True
+                return None
+            c = fib.handleToCoord(h)
+            ph = fib.handleToPayload(h)
+            el = (c, ph, fib.payloadToValue(ph) if self.leaf else None)
+        except BaseException as e:      # noqa
+            self.error, self.done = e, True
+            return None
+        self.got.append(el)
+        return el
+
+
+def _judge(mon, cur, mode, desc):
+    rec = cur.rec
+    what = f"scan:concurrent:{mode}:{rec.fmt}:{'leaf' if cur.leaf else 'interior'}"
+    where = f"{desc} rank {rec.rank} {rec.fmt} fiber (layout coords {rec.coords}, shape {rec.shape})"
+    mon.count("concurrent_scans")
+    if cur.error is not None:
+        mon.violation(f"{what}:raised:{type(cur.error).__name__}",
+                      f"{where}: scanned while other slices are open ({mode}) raised {type(cur.error).__name__}: "
+                      f"{cur.error}; scanned alone it presents its elements")
+        return
+    if cur.runaway:
+        mon.violation(f"{what}:runaway", f"{where}: scanned while other slices are open ({mode}) it presents more "
+                                         f"than {cur.cap} elements; scanned alone it presents its elements")
+        return
+    exp = _expected_elements(rec, 0)
+    got = cur.got
+    if not mon.check([g[0] for g in got] == [e[0] for e in exp], f"{what}:coords",
+                     f"{where}: scanned while other slices are open ({mode}) it presents coordinates "
+                     f"{[g[0] for g in got]}; scanned alone it presents {[e[0] for e in exp]}"):
+        return
+    if cur.leaf:
+        mon.check([g[2] for g in got] == [e[1] for e in exp], f"{what}:values",
+                  f"{where}: scanned while other slices are open ({mode}) it presents values {[g[2] for g in got]} at "
+                  f"{[g[0] for g in got]}, the layout holds {[e[1] for e in exp]}")
+        return
+    okc = _children_ok(rec, cur.fib, got, exp, cur.ot, desc)
+    if okc is not None:
+        mon.check(okc, f"{what}:child",
+                  f"{where}: scanned while other slices are open ({mode}) its payload handles {[g[1] for g in got]} do "
+                  f"not lead to its children (fibers {[e[1] for e in exp]} of the next rank)")
+
+
+def _coiterate(mon, group, mode, desc, merge):
+    """group: [(rec, fiber object, output_tensor it belongs to, leaf)].  A slice is opened on every fiber, then
+    elements are pulled in turn (round robin), or two-finger style (merge: always advance the cursors standing at
+    the smallest coordinate); every cursor must present the elements of its own fiber."""
+    with quiet():
+        curs = [_Cursor(*g).open() for g in group]
+        if not merge:
+            live = list(curs)
+            while live:
+                live = [c for c in live if c.pull() is not None]
+        else:
+            heads = [c.pull() for c in curs]
+            while any(h is not None for h in heads):
+                try:
+                    low = min(h[0] for h in heads if h is not None)
+                except TypeError:
+                    low = None
+                for j, h in enumerate(heads):
+                    if h is not None and (low is None or h[0] == low):
+                        heads[j] = curs[j].pull()
+    for c in curs:
+        _judge(mon, c, mode, desc)
+
+
+def _nested_walk(mon, recs, ot, desc):
+    """Top-down walk of the encoded tensor: the child of every presented element (the child the layout gives it)
+    is scanned, recursively, while the scan of its parent is still open."""
+    depth = len(desc)
+    curs = []
+
+    def walk(r, i):
+        rec = recs[r][i]
+        cur = _Cursor(rec, ot[r + 1][i], ot, r == depth - 1).open()
+        curs.append(cur)
+        k = 0
+        while cur.pull() is not None:
+            if r < depth - 1 and k < len(rec.children):
+                walk(r + 1, rec.children[k])
+            k += 1
+
+    with quiet():
+        walk(0, 0)
+    for c in curs:
+        _judge(mon, c, "nested", desc)
 
 
 def _check_lookup(mon, rec, fib, desc):
